@@ -1,0 +1,66 @@
+//go:build verif
+
+// Contracts for the deductive verifier in /verif (gvc). This file contains comments only:
+// it adds no code to the package, with or without the "verif" build tag.
+
+package postgres
+
+//@ import "fmt"
+//@ import "strconv"
+//@ import "ariga.io/atlas/sql/schema"
+
+// ---------------------------------------------------------------------------------------
+// C16: type and sequence identifiers honour the plan's schema qualifier: when one is requested
+// the text is a function of the qualifier and the object's name only (the object's own schema
+// is not consulted); an empty qualifier prints no prefix at all.
+
+//@ spec func gvcOwnSchema(ns *schema.Schema) string {
+//@ spec 	if ns == nil {
+//@ spec 		return ""
+//@ spec 	}
+//@ spec 	return ns.Name
+//@ spec }
+//@ spec func gvcPrefixOf(q string) string {
+//@ spec 	if q == "" {
+//@ spec 		return ""
+//@ spec 	}
+//@ spec 	return fmt.Sprintf("%q.", q)
+//@ spec }
+//@ spec func gvcTypeIdentOf(q string, name string) string {
+//@ spec 	if q == "" {
+//@ spec 		return strconv.Quote(name)
+//@ spec 	}
+//@ spec 	return fmt.Sprintf("%q.%q", q, name)
+//@ spec }
+//@ extern func strconv.Quote(s string) (r string)
+//@   pure
+
+//@ func (s *state) schemaPrefix(ns *schema.Schema) (r string)
+//@   requires s != nil
+//@   modifies nothing
+//@   ensures requested-qualifier-is-used: s.SchemaQualifier != nil ==> r == gvcPrefixOf(*s.SchemaQualifier)
+//@   ensures own-schema-only-by-default: s.SchemaQualifier == nil ==> r == gvcPrefixOf(gvcOwnSchema(ns))
+
+//@ func (s *state) typeIdent(ns *schema.Schema, name string) (r string)
+//@   requires s != nil
+//@   modifies nothing
+//@   ensures requested-qualifier-is-used: s.SchemaQualifier != nil ==> r == gvcTypeIdentOf(*s.SchemaQualifier, name)
+//@   ensures own-schema-only-by-default: s.SchemaQualifier == nil ==> r == gvcTypeIdentOf(gvcOwnSchema(ns), name)
+
+//@ func (s *state) enumIdent(e *schema.EnumType) (r string)
+//@   requires s != nil && e != nil
+//@   modifies nothing
+//@   ensures requested-qualifier-is-used: s.SchemaQualifier != nil ==> r == gvcTypeIdentOf(*s.SchemaQualifier, e.T)
+//@   ensures own-schema-only-by-default: s.SchemaQualifier == nil ==> r == gvcTypeIdentOf(gvcOwnSchema(e.Schema), e.T)
+
+//@ func (s *state) domainIdent(d *DomainType) (r string)
+//@   requires s != nil && d != nil
+//@   modifies nothing
+//@   ensures requested-qualifier-is-used: s.SchemaQualifier != nil ==> r == gvcTypeIdentOf(*s.SchemaQualifier, d.T)
+//@   ensures own-schema-only-by-default: s.SchemaQualifier == nil ==> r == gvcTypeIdentOf(gvcOwnSchema(d.Schema), d.T)
+
+//@ func (s *state) compositeIdent(c *CompositeType) (r string)
+//@   requires s != nil && c != nil
+//@   modifies nothing
+//@   ensures requested-qualifier-is-used: s.SchemaQualifier != nil ==> r == gvcTypeIdentOf(*s.SchemaQualifier, c.T)
+//@   ensures own-schema-only-by-default: s.SchemaQualifier == nil ==> r == gvcTypeIdentOf(gvcOwnSchema(c.Schema), c.T)
